@@ -58,6 +58,14 @@ CLAIMED = {
          "Lean theorems over a model of the delayed queue (request channel, std.PriorityQueue over a transcription of container/heap whose Push/Pop are proved to keep the heap invariant with a minimal root, ticks at the period read from the source literal): a task is forwarded only at a tick instant >= its deadline (no proviso), at the first such tick, hence less than one tick late when the target queues have room (exact-coincidence case stated separately), exactly once, and in non-decreasing deadline order (for non-negative delays and unblocked targets). Tie to /repo: multisets of (send instant, delay, queue) incl. ties, d=0, bursts beyond 32/128 outstanding, all tick phases, run on the real global delayed queue under the virtual clock; arrival instants and per-queue order compared exactly with the model; independent oracle",
          "trusted: Go channel/select/ticker semantics as modelled (a ticker channel holds one tick); with a FULL target queue (outside the property's proviso) only never-early/once/model correspondence are checked - head-of-line blocking there reorders deadlines on the real code; faketime at GOMAXPROCS=1; Lean kernel, axioms in evidence, driver compilation",
          "machine-checked proof (Lean 4) + trace comparison of virtual-time runs", "DESIGN.md §2 C10"),
+ "C11": ("lean-proof+differential",
+         "Lean theorems over a model of the iox stream/writer/reader that mirrors the Go expressions on BitVec and reads every magic number (shift lists, masks, bounds) from literal tables regenerated from the source on each run: each writer appends exactly the little-endian / unsigned-LEB128 (1-5 bytes) / length-prefixed spec bytes (independent recursive specs), each reader inverts its writer at any offset inside any surrounding bytes returning the value and consuming exactly the bytes written, for every value of every type and every typed sequence. Tie to /repo: real writer output (bytes) and real reader results/positions compared with the model: all int16, stratified+random int32 (fixed and 7-bit), int64, byte slices/strings across the 127/128, 16383/16384 and 2^21 length boundaries, typed sequences; thorough adds CRC-folded blocks of 65536 consecutive int32 values (1.3e8 values; VERIF_C11_SWEEP=full = all 2^32); independent Python decoder as oracle",
+         "trusted: convert.String/Bytes = identity on bytes; lengths < 2^31 for bytes/strings (int32 prefix) and Go int lengths < 2^63; Lean kernel, axioms in evidence, driver compilation, harness+generators",
+         "machine-checked proof (Lean 4) + differential correspondence with regenerated literal tables", "DESIGN.md §2 C11"),
+ "C12": ("lean-proof+differential",
+         "Lean theorems over the same model for ARBITRARY byte strings and positions: every read call returns a value or one of the documented errors (the explicit crash outcome is unreachable), 0 <= pos <= pos' <= len, a failed fixed-width read consumes nothing, the 7-bit decoder consumes at most 5 bytes and rejects a 5th byte > 15, a successful ReadBytes/ReadString returns exactly the announced bytes from the right offset, the size passed to make is <= the remaining input (0 for every other call), any sequence of calls keeps the invariant; decide-proved counterexample for the pre-fix allocation. Tie to /repo: every byte string of length <= 2 x every call at every position, structured hostile inputs (truncated values, over-long 7-bit groups, prefixes up to 2^31-1, negative sizes) and random call sequences on the real reader: outcome, error identity, Position/Len and an allocation meter (runtime.MemStats) compared with the model and judged by an independent oracle",
+         "trusted: MemStats allocation meter with slack 2*remaining+64 for size-class rounding; make of n <= remaining bytes does not fail; Lean kernel, axioms in evidence, driver compilation, harness+generators",
+         "machine-checked proof (Lean 4) + differential correspondence on arbitrary bytes", "DESIGN.md §2 C12"),
 }
 NOT_CLAIMED = {}
 
